@@ -63,7 +63,7 @@ func claimed(stored map[string]*proxyv1alpha1.UpstreamCluster, except string) ma
 }
 
 func genObj(t *rapid.T, label, name string, free []string) *proxyv1alpha1.UpstreamCluster {
-	obj := gen.GenValidCluster(t, label, name, gen.ObjOpts{Endpoints: endpoints, ServerNames: free, PKI: pki.Pool(3), SchemaNames: schemaNames})
+	obj := gen.GenValidCluster(t, label, name, gen.ObjOpts{Endpoints: endpoints, ServerNames: free, PKI: pki.WithRenewals(3), SchemaNames: schemaNames})
 	if errs := validation.ValidateUpstreamCluster(obj); len(errs) > 0 {
 		t.Fatalf("harness: generated object is not valid: %v", errs)
 	}
